@@ -38,7 +38,7 @@ static uint64_t fingerprint(const OpResult& o, std::string* text = nullptr)
 
 static PlanOp gen_any_op(Rng& rng, bool thorough)
 {
-    std::vector<std::string> pk = keys_for({ "G1", "G2", "G3", "G4", "G5", "G6", "G7", "G8", "G9", "G10", "G11", "G12", "G13", "G14", "G15", "G16", "G17", "G18", "T1" });
+    std::vector<std::string> pk = keys_for({ "G1", "G2", "G3", "G4", "G5", "G6", "G7", "G8", "G9", "G10", "G11", "G12", "G13", "G14", "G15", "G16", "G17", "G18", "G19", "G20", "T1" });
     std::vector<std::string> rk = regex_keys();
     uint64_t k = rng.below(100);
     PlanOp op;
@@ -98,7 +98,7 @@ static Plan gen_c15_cold(uint64_t seed, int64_t index)
     Plan p;
     p.seed = seed; p.index = index; p.property = "C15"; p.mode = "cold_start";
     p.interleaved_first = true;
-    std::vector<std::string> pk = keys_for({ "G1", "G2", "G3", "G4", "G5", "G6", "G7", "G8", "G9", "G10", "G11", "G12", "G13", "G14", "G15", "G16", "G17", "G18", "T1" });
+    std::vector<std::string> pk = keys_for({ "G1", "G2", "G3", "G4", "G5", "G6", "G7", "G8", "G9", "G10", "G11", "G12", "G13", "G14", "G15", "G16", "G17", "G18", "G19", "G20", "T1" });
     std::vector<PlanOp> ops;
     for (int k = 0; k < 5; ++k)
     {
@@ -157,6 +157,13 @@ static Plan gen_c15(uint64_t seed, int64_t index, bool thorough)
                 }
             }
             pt.ops.push_back(op);
+        }
+        // re-entrancy: a functor of one call makes the task's next call itself (same thread, outer call on the stack);
+        // each of the two must still behave as it does alone
+        if (pt.ops.size() >= 2 && rng.chance(1, 4))
+        {
+            size_t i = size_t(rng.below(pt.ops.size() - 1));
+            if (pt.ops[i].api != API_MATCH && pt.ops[i].api != API_DIAG && pt.ops[i].api != API_MATCHER_DEBUG) pt.ops[i].nest_at = int64_t(rng.below(3));
         }
         p.tasks.push_back(pt);
     }
@@ -239,6 +246,7 @@ static std::vector<Violation> case_c15(const Plan& p, CaseCtx& cx)
                 Plan s;
                 s.seed = p.seed; s.index = p.index; s.property = "C15"; s.mode = "solo";
                 s.tasks.emplace_back(); s.tasks[0].ops.push_back(p.tasks[t].ops[i]);
+                s.tasks[0].ops[0].nest_at = -1;      // alone means: not re-entered, not re-entering
                 s.hash_images = true;
                 RunResult r = exec_plan(s, kFlags);
                 cx.hashes.push_back(r.hash);
@@ -276,10 +284,14 @@ static std::vector<Violation> case_c15(const Plan& p, CaseCtx& cx)
             std::string tx;
             uint64_t f = fingerprint(o, &tx);
             std::string who = "task " + std::to_string(t) + " op " + std::to_string(i) + " (" + o.op.parser + ", api " + std::to_string(o.op.api) + ", input '" + printable(o.rend.bytes, 80) + "')";
+            if (o.rec.ran_nested) who += " [called from inside functor call #" + std::to_string(rr.tasks[t][i - 1].op.nest_at) + " of op " + std::to_string(i - 1) + "]";
+            if (o.rec.nest_fired) who += " [its functor call #" + std::to_string(o.op.nest_at) + " itself made the call of op " + std::to_string(i + 1) + "]";
+            if (cx.st && o.rec.ran_nested) cx.st->add("probe.reentrant_call_from_inside_a_functor");
+            const bool reentry = o.rec.ran_nested || o.rec.nest_fired;
             // 1. isolation: the call under interleaving == the same call alone
             if (f != before[t][i])
             {
-                vs.push_back(make_violation("C15", p.tasks.size() > 1 && rr.switches > 0 ? "result_differs_under_interleaving" : "result_depends_on_earlier_calls",
+                vs.push_back(make_violation("C15", reentry ? "result_differs_when_reentered" : p.tasks.size() > 1 && rr.switches > 0 ? "result_differs_under_interleaving" : "result_depends_on_earlier_calls",
                     who + ": alone {" + tb[t][i] + "} but among the other calls {" + tx + "}", p));
                 return vs;
             }
